@@ -1,24 +1,105 @@
-// Unit `tls_accept_native`: actix-tls/src/accept/native_tls.rs — only the readiness gate; `call` builds an `async move`
-// block (rule R11: never extracted) and is NOT verified.
+// Unit `tls_accept_native`: actix-tls/src/accept/native_tls.rs — the readiness gate, `call`, and the `async move`
+// block `call` returns (verified as the anonymous async fn it is, rule R11c).
 use vstd::prelude::*;
+use vstd::future::*;
 use core::task::Poll;
+use core::future::Future;
 verus! {
 //@include ../common/core.rs
 //@include ../common/poll.rs
 //@include ../common/tls_env.rs
 #[verifier::external_body]
 pub struct Error { _p: () }
+/// tokio_native_tls: the handshake itself is NOT verified.  PROPHECY names: `hs_outcome(io)` is what the handshake on
+/// `io` ends with, `hs_times_out(d)` whether it is still running `d` nanoseconds after it was started.
+pub mod tokio_native_tls {
+    #[verifier::external_body]
+    #[verifier::reject_recursive_types(IO)]
+    pub struct TlsStream<IO> { _p: core::marker::PhantomData<IO> }
+}
+pub uninterp spec fn hs_outcome<IO>(io: IO) -> Result<tokio_native_tls::TlsStream<IO>, Error>;
+pub uninterp spec fn hs_times_out(d: nat) -> bool;
+#[verifier::external_body]
+#[verifier::reject_recursive_types(IO)]
+pub struct HsFut<IO> { _p: core::marker::PhantomData<IO> }
+#[verifier::external]
+impl<IO> Future for HsFut<IO> {
+    type Output = Result<tokio_native_tls::TlsStream<IO>, Error>;
+    fn poll(self: core::pin::Pin<&mut Self>, cx: &mut core::task::Context<'_>) -> Poll<Self::Output> { unimplemented!() }
+}
 #[verifier::external_body]
 pub struct TlsAcceptor { _p: () }
+impl TlsAcceptor {
+    #[verifier::external_body]
+    pub fn accept<IO>(&self, io: IO) -> (r: HsFut<IO>)
+        ensures r@ == hs_outcome(io),
+    { unimplemented!() }
+}
+impl Clone for TlsAcceptor {
+    #[verifier::external_body]
+    fn clone(&self) -> (r: TlsAcceptor) { unimplemented!() }
+}
+/// tokio::time::timeout(d, fut): `Err(Elapsed)` iff `fut` has not completed within `d`, otherwise `Ok(fut's output)`
+#[verifier::external_body]
+pub struct Elapsed { _p: () }
+#[verifier::external_body]
+#[verifier::reject_recursive_types(F)]
+pub struct Timeout<F> { _p: core::marker::PhantomData<F> }
+#[verifier::external]
+impl<F: Future> Future for Timeout<F> {
+    type Output = Result<F::Output, Elapsed>;
+    fn poll(self: core::pin::Pin<&mut Self>, cx: &mut core::task::Context<'_>) -> Poll<Self::Output> { unimplemented!() }
+}
+#[verifier::external_body]
+pub fn timeout<F: Future>(d: Duration, f: F) -> (r: Timeout<F>)
+    ensures hs_times_out(d.ns()) ==> r@ is Err, !hs_times_out(d.ns()) ==> r@ == Ok::<F::Output, Elapsed>(f@),
+{ unimplemented!() }
+
+#[verifier::external_body]
+#[verifier::reject_recursive_types(T)]
+pub struct LocalBoxFuture<'a, T> { _p: core::marker::PhantomData<&'a T> }
+pub struct Box { }
+impl Box {
+    #[verifier::external_body]
+    pub fn pin<F: Future>(f: F) -> (r: LocalBoxFuture<'static, F::Output>) { unimplemented!() }
+}
+
 //@extract_type file=actix-tls/src/accept/mod.rs item="enum TlsError<TlsErr, SvcErr>"
+/// native_tls.rs `pub struct TlsStream<IO>(tokio_native_tls::TlsStream<IO>);` (a tuple struct: re-declared)
+#[verifier::reject_recursive_types(IO)]
+pub struct TlsStream<IO>(pub tokio_native_tls::TlsStream<IO>);
 //@check_struct file=actix-tls/src/accept/native_tls.rs name=AcceptorService fields=acceptor,conns,handshake_timeout
 //@extract_type file=actix-tls/src/accept/native_tls.rs item="struct AcceptorService"
+
+//@extract file=actix-tls/src/accept/native_tls.rs item="impl<IO: ActixStream + 'static> Service<IO> for AcceptorService / fn call" async_block=1 block_sig="async fn call_block<IO>(io: IO, guard: CounterGuard, acceptor: TlsAcceptor, dur: Duration) -> Result<TlsStream<IO>, TlsError<Error, Infallible>>" ret=r props=C18 name=native_tls::call_block
+//@spec
+    requires true,
+    ensures
+        // a handshake still running after `dur` ends as a Timeout error; otherwise the call resolves with the
+        // handshake's own outcome: the working TLS stream, or its TLS error   [C18]
+        hs_times_out(dur.ns()) ==> r == Err::<TlsStream<IO>, TlsError<Error, Infallible>>(TlsError::Timeout),
+        !hs_times_out(dur.ns()) ==> (match hs_outcome(io) {
+            Ok(s) => r == Ok::<TlsStream<IO>, TlsError<Error, Infallible>>(TlsStream(s)),
+            Err(e) => r == Err::<TlsStream<IO>, TlsError<Error, Infallible>>(TlsError::Tls(e)),
+        }),
+//@end
+
 impl AcceptorService {
 //@extract file=actix-tls/src/accept/native_tls.rs item="impl<IO: ActixStream + 'static> Service<IO> for AcceptorService / fn poll_ready" ret=r props=C18 name=native_tls::poll_ready
 //@spec
     ensures
         r matches Poll::Ready(Ok(_)) <==> self.conns.count() < self.conns.capacity(),   // [C18]
         !(self.conns.count() < self.conns.capacity()) ==> r is Pending,
+//@end
+
+//@extract file=actix-tls/src/accept/native_tls.rs item="impl<IO: ActixStream + 'static> Service<IO> for AcceptorService / fn call" ret=r props=C18 name=native_tls::call sig_replace="fn call(&self, io: IO)=>fn call<IO>(&self, io: IO)" async_block_call="call_block(io, guard, acceptor, dur)"
+//@spec
+    requires true,
+//@insert before="Box::pin("
+        // the handshake is counted from the moment of the call (the guard is taken here, not inside the future), and
+        // the future is bounded by the service's own handshake timeout   [C18]
+        assert(guard.of() == self.conns.id());   // [C18]
+        assert(dur == self.handshake_timeout);   // [C18]
 //@end
 }
 } // verus!
